@@ -49,11 +49,22 @@ IO_ON = {
 def vary_tap_settings(cfg: Dict, rng: random.Random) -> None:
     """Generated kill-chain options for the TAP001 / TAP003 threat-actor agents of the shipped UC7 scenarios (the
     topology and everything else stay as shipped): schedule, repeat flags, per-stage probabilities, scan settings."""
+    exhaust = rng.random() < 0.34  # TAP001: a scan campaign that runs out of networks and has to choose again
     for a in cfg.get("agents", []):
         t = str(a.get("type", "")).lower()
         if not t.startswith("tap"):
             continue
         s = a["agent_settings"]
+        if exhaust and t == "tap-001":
+            s.update({"frequency": 2, "variance": 0, "start_step": 1, "repeat_kill_chain": False, "repeat_kill_chain_stages": True})
+            for stage, opts in (s.get("kill_chain") or {}).items():
+                if isinstance(opts, dict) and "probability" in opts:
+                    opts["probability"] = 1
+            prop = s["kill_chain"]["PROPAGATE"]
+            nets = [n for n in prop["network_addresses"] if not n.startswith("192.168.220.")]
+            rng.shuffle(nets)
+            prop.update({"repeat_scan": True, "scan_attempts": 20, "network_addresses": nets[: rng.choice([2, 3])]})
+            continue
         s["frequency"] = rng.choice([2, 3, 5])
         s["variance"] = rng.choice([0, 0, 1])
         s["start_step"] = rng.randint(1, 5)
@@ -192,6 +203,13 @@ class Gen:
         if self.chance(0.3):
             cfg["node_scan_duration"] = r.choice(self.p["default_durations"])
             h["node_scan_duration"] = cfg["node_scan_duration"]
+        if self.chance(self.p.get("initial_power_off", 0.0)):
+            cfg["operating_state"] = "OFF"
+            h["operating_state"] = "OFF"
+        if self.chance(self.p.get("extra_nic", 0.0)):
+            third = 200 + len(self.inv["hosts"])
+            cfg["network_interfaces"] = {2: {"ip_address": f"172.16.{third}.2", "subnet_mask": "255.255.255.0"}}
+            h["nics"][2] = f"172.16.{third}.2"
         if self.chance(self.p["initial_files"]):
             folders = []
             for fi in range(r.randint(1, 2)):
@@ -672,6 +690,11 @@ class Gen:
                 a = self.mutate_missing(a)
             out.append(a)
         action_map = {i: {"action": a["action"], "options": a["options"]} for i, a in enumerate(out)}
+        if self.chance(0.3) and "unordered_action_map_keys" not in self.avoid:
+            # a YAML mapping may list its keys in any order (the schema only asks that 0..N-1 are all present)
+            items = list(action_map.items())
+            r.shuffle(items)
+            action_map = dict(items)
         agent: Dict[str, Any] = {
             "ref": ref,
             "team": "BLUE",
